@@ -39,6 +39,11 @@ impl Monitor for Mon {
         stats.nontrivial = true;
         // 1. the JoinRequest
         let txs = tx_events(w, rec);
+        if aborted_before_tx(w, rec) && w.env.borrow().trace[rec.trace_lo..rec.trace_hi].iter().any(|ev| matches!(ev, crate::world::Ev::Fault { .. })) {
+            // an injected radio error hit a radio call that precedes the transmission: no attempt was made
+            stats.bump("probe.join-aborted-before-tx");
+            return None;
+        }
         let Some(tx) = txs.first() else {
             return Some(Violation::new("C11.join-request-bytes", "none", format!("the join attempt did not hand any frame to the radio (result {:?})", rec.result)));
         };
